@@ -619,3 +619,139 @@ twin('C17', 'copy-restore-inline-oid', BSPY, 'copy',
                              r.data_txn, transaction)''')
 twin('C17', 'scan-guard-spelling', RECPY, 'scan',
      '''                if l_ == 0:''', '''                if not l_ > 0:''')
+
+# ---------------------------------------------------------------- C09
+breaker('C09', 'init-read-index-forgets-read-only', 'C09.R1', FSPY,
+        'FileStorage.__init__',
+        '''                self._file, file_name, index, tindex, stop,
+                read_only=read_only,
+            )
+            self._save_index()''',
+        '''                self._file, file_name, index, tindex, stop,
+            )
+            self._save_index()''')
+breaker('C09', 'save-index-unguarded', 'C09.R1', FSPY,
+        'FileStorage._save_index',
+        '''        if self._is_read_only:
+            return
+
+''', '')
+breaker('C09', 'tmp-file-opened-read-only-too', 'C09.R1', FSPY,
+        'FileStorage.__init__',
+        '''        if not read_only:
+            # Create the lock file
+            self._lock_file = LockFile(file_name + '.lock')
+            self._tfile = open(file_name + '.tmp', 'w+b')
+            self._tfmt = TempFormatter(self._tfile)
+        else:
+            self._tfile = None''',
+        '''        if not read_only:
+            # Create the lock file
+            self._lock_file = LockFile(file_name + '.lock')
+        self._tfile = open(file_name + '.tmp', 'w+b')
+        self._tfmt = TempFormatter(self._tfile)''')
+breaker('C09', 'scan-truncates-read-only', 'C09.R1', FSPY, 'read_index',
+        '''            if not read_only:
+                logger.warning("%s truncated, possibly due to damaged"
+                               " records at %s", name, pos)
+                _truncate(file, name, pos)
+            break''', '''            logger.warning("%s truncated, possibly due to damaged"
+                           " records at %s", name, pos)
+            _truncate(file, name, pos)
+            break''')
+breaker('C09', 'pack-no-read-only-check', 'C09.R2', FSPY, 'FileStorage.pack',
+        '''        if self._is_read_only:
+            raise ReadOnlyError()
+
+        stop = TimeStamp''', '''        stop = TimeStamp''')
+breaker('C09', 'delete-read-only-check-late', 'C09.R2', FSPY,
+        'FileStorage.deleteObject',
+        '''        if self._is_read_only:
+            raise ReadOnlyError()
+        if transaction is not self._transaction:
+            raise StorageTransactionError(self, transaction)
+
+        with self._lock:
+            old = self._index_get(oid, 0)''',
+        '''        if transaction is not self._transaction:
+            raise StorageTransactionError(self, transaction)
+
+        with self._lock:
+            old = self._index_get(oid, 0)
+            if self._is_read_only:
+                raise ReadOnlyError()''')
+breaker('C09', 'index-load-unprotected', 'C09.R3', FSPY,
+        'FileStorage._restore_index',
+        '''            try:
+                info = fsIndex.load(index_name)
+            except:  # noqa: E722 do not use bare 'except'
+                logger.exception('loading index')
+                return None''', '''            info = fsIndex.load(index_name)''')
+breaker('C09', 'sanity-check-unprotected', 'C09.R3', FSPY, 'FileStorage._sane',
+        '''        try:
+            r = self._check_sanity(index, pos)
+        except Exception:
+            # The saved index does not match the file; it is only a cache.
+            logger.exception("Error checking index for %s", self._file_name)
+            r = 0''', '''        r = self._check_sanity(index, pos)''')
+breaker('C09', 'index-used-unchecked', 'C09.R4', FSPY,
+        'FileStorage._restore_index',
+        '''        if not tid:
+            return None
+
+        return index, pos, tid''', '''        return index, pos, tid''')
+breaker('C09', 'scan-from-start-ignores-saved-pos', 'C09.R4', FSPY,
+        'FileStorage.__init__',
+        'ltid=ltid, start=start, read_only=read_only,',
+        'ltid=ltid, read_only=read_only,')
+breaker('C09', 'index-saved-in-place', 'C09.R5', FSPY,
+        'FileStorage._save_index',
+        'self._index.save(self._pos, tmp_name)',
+        'self._index.save(self._pos, index_name)')
+twin('C09', 'save-index-guard-inverted', FSPY, 'FileStorage._save_index',
+     '''        if self._is_read_only:
+            return
+
+        index_name = self.__name__ + '.index'
+        tmp_name = index_name + '.index_tmp'
+
+        self._index.save(self._pos, tmp_name)
+
+        try:
+            try:
+                os.remove(index_name)
+            except OSError:
+                pass
+            os.rename(tmp_name, index_name)
+        except:  # noqa: E722 do not use bare 'except'
+            pass
+
+        self._saved += 1''',
+     '''        if not self._is_read_only:
+            index_name = self.__name__ + '.index'
+            tmp_name = index_name + '.index_tmp'
+
+            self._index.save(self._pos, tmp_name)
+
+            try:
+                try:
+                    os.remove(index_name)
+                except OSError:
+                    pass
+                os.rename(tmp_name, index_name)
+            except:  # noqa: E722 do not use bare 'except'
+                pass
+
+            self._saved += 1''')
+twin('C09', 'scan-guard-ifelse', FSPY, 'read_index',
+     '''            if not read_only:
+                logger.warning('%s truncated at %s', name, pos)
+                seek(pos)
+                file.truncate()
+            break''', '''            if read_only:
+                pass
+            else:
+                logger.warning('%s truncated at %s', name, pos)
+                seek(pos)
+                file.truncate()
+            break''')
